@@ -25,7 +25,17 @@ class C07(Prop):
                   "functions on every run and the real outputs are judged by the Lean spec evaluators")
     level_note = ("Lean kernel + standard axioms; hand-written model (dict = insertion-ordered association list); "
                   "correspondence is differential testing on generated instances")
-    theorems = []
+    theorems = [
+        "PrefVerif.C07.pairwise_keys",
+        "PrefVerif.C07.pairwise_entry",
+        "PrefVerif.C07.copeland_keys",
+        "PrefVerif.C07.copeland_entry",
+        "PrefVerif.C07.hasCondorcet_iff",
+        "PrefVerif.C07.borda_entry",
+        "PrefVerif.C07.pwg_lines",
+        "PrefVerif.C07.pwg_count",
+        "PrefVerif.C07.prefCount_perm",
+    ]
     rule = ("random well-formed ordinal instances (soc/soi/toc/toi, 2-7 alternatives, ids sparse or 1..m, storage "
             "order of alternatives shuffled, multiplicities 1-4), with alternatives tied everywhere or never ranked; "
             "non-trivial = at least 2 distinct orders or a tie")
